@@ -21,6 +21,7 @@ pub mod c16;
 pub mod c17;
 pub mod c18;
 pub mod c19;
+pub mod c20;
 
 pub fn level_of(id: &str) -> &'static str {
     match id {
@@ -48,6 +49,7 @@ pub fn run(ctx: &Ctx) -> bool {
         "C17" => c17::run(ctx),
         "C18" => c18::run(ctx),
         "C19" => c19::run(ctx),
+        "C20" => c20::run(ctx),
         _ => return false,
     }
     true
@@ -72,6 +74,7 @@ pub fn replay(ctx: &Ctx, id: &str, kind: &str, case: &J) -> Vec<Fail> {
         "C17" => c17::replay(ctx, kind, case),
         "C18" => c18::replay(ctx, kind, case),
         "C19" => c19::replay(ctx, kind, case),
+        "C20" => c20::replay(ctx, kind, case),
         _ => vec![Fail::new("harness", format!("no replay for property {}", id))],
     }
 }
